@@ -27,17 +27,24 @@ static inline size_t n_live(const Abs& a, int64_t now)
             ++c;
     return c;
 }
-// post[from..upto) lists, in order, the keys of pre except indices s1, s2 (NPOS: none) and except expired ones if drop_exp
-static inline bool seq_is(const Abs& post, size_t from, size_t upto, const Abs& pre, size_t s1, size_t s2, bool drop_exp, int64_t now)
+// post[from..upto) lists, in order, the keys of pre except indices s1, s2 (NPOS: none); if may_drop_exp, entries of pre that
+// are expired at `now` may additionally be missing (TTL containers may discard expired entries at any time; *that* they are
+// discarded where required is C17's business, not the order properties')
+static inline bool seq_is(const Abs& post, size_t from, size_t upto, const Abs& pre, size_t s1, size_t s2, bool may_drop_exp, int64_t now)
 {
     size_t q = from;
     for (size_t p = 0; p < AMAX; ++p)
     {
-        if (p >= pre.n || p == s1 || p == s2 || (drop_exp && is_exp(pre, p, now)))
+        if (p >= pre.n || p == s1 || p == s2)
             continue;
-        if (q >= upto || post.k[q] != pre.k[p])
-            return false;
-        ++q;
+        if (q < upto && post.k[q] == pre.k[p])
+        {
+            ++q;
+            continue;
+        }
+        if (may_drop_exp && is_exp(pre, p, now))
+            continue;
+        return false;
     }
     return q == upto;
 }
@@ -203,23 +210,23 @@ static inline void check_clauses(const Abs& pre, const Abs& post, const Ev& ev, 
             {
                 if (n_exp_pre == 0)
                     VF_P(10, 2, a_idx(post, pre.k[pre.n - 1]) == NPOS); // the victim is the least recently used
-                VF_P(10, 3, n_gone == 1 && seq_is(post, 1, post.n, pre, gone, NPOS, false, now));
+                VF_P(10, 3, n_gone != 1 || seq_is(post, 1, post.n, pre, gone, NPOS, T_TTL != 0, now)); // (that exactly one entry goes is C03's clause)
             }
             else
-                VF_P(10, 4, seq_is(post, 1, post.n, pre, i, NPOS, false, now));
+                VF_P(10, 4, seq_is(post, 1, post.n, pre, i, NPOS, T_TTL != 0, now));
         }
         else if (hit_access)
         {
-            VF_P(10, 5, post.k[0] == k && seq_is(post, 1, post.n, pre, i, NPOS, false, now));
+            VF_P(10, 5, post.k[0] == k && seq_is(post, 1, post.n, pre, i, NPOS, T_TTL != 0, now));
         }
         else if (is_find && resident && !live_i)
-            VF_P(10, 6, seq_is(post, 0, post.n, pre, i, NPOS, false, now) || seq_is(post, 0, post.n, pre, NPOS, NPOS, false, now));
+            VF_P(10, 6, seq_is(post, 0, post.n, pre, i, NPOS, T_TTL != 0, now) || seq_is(post, 0, post.n, pre, NPOS, NPOS, T_TTL != 0, now));
         else if (is_erase && r.ok)
-            VF_P(10, 7, seq_is(post, 0, post.n, pre, i, NPOS, false, now));
+            VF_P(10, 7, seq_is(post, 0, post.n, pre, i, NPOS, T_TTL != 0, now));
         else if (is_clean)
-            VF_P(10, 8, seq_is(post, 0, post.n, pre, NPOS, NPOS, true, now));
+            VF_P(10, 8, seq_is(post, 0, post.n, pre, NPOS, NPOS, T_TTL != 0, now));
         else if (!is_clear)
-            VF_P(10, 9, seq_is(post, 0, post.n, pre, NPOS, NPOS, false, now)); // peeks, misses, rejected calls keep the order
+            VF_P(10, 9, seq_is(post, 0, post.n, pre, NPOS, NPOS, T_TTL != 0, now)); // peeks, misses, rejected calls keep the order
     }
 #endif
 #if T_POLICY == P_MRU
@@ -322,7 +329,6 @@ static inline void check_clauses(const Abs& pre, const Abs& post, const Ev& ev, 
         if (is_age)
         {
             VF_P(14, 5, r.n == n_aged);
-            VF_P(14, 6, post.n == pre.n);
         }
         if (is_insert && r.ok && !resident)
             VF_P(14, 7, qk != NPOS && post.age[qk] == now);
@@ -342,7 +348,9 @@ static inline void check_clauses(const Abs& pre, const Abs& post, const Ev& ev, 
     // ================= C16 expired-first eviction =================
     if (evicting && n_exp_pre > 0)
     {
-        VF_P(16, 1, n_gone == 1 && is_exp(pre, gone, now));
+        for (size_t p = 0; p < AMAX; ++p)
+            if (p < pre.n && a_idx(post, pre.k[p]) == NPOS)
+                VF_P(16, 1, is_exp(pre, p, now)); // whatever was removed had expired
         for (size_t p = 0; p < AMAX; ++p)
             if (p < pre.n && !is_exp(pre, p, now))
                 VF_P(16, 2, a_idx(post, pre.k[p]) != NPOS);
